@@ -109,6 +109,8 @@ def expr_to_z3(node, env):
             return truthy(args[0])
         if f == 'int' and len(args) == 1:
             return as_int(args[0])
+        if f == 'len' and len(args) == 1 and z3.is_seq(args[0]):
+            return z3.Length(args[0])
         if f == 'abs' and len(args) == 1:
             a = as_int(args[0])
             return z3.If(a < 0, -a, a)
@@ -251,10 +253,23 @@ def sre_to_z3(pattern, flags=0):
 
 
 def _seq(items, C, flags):
-    parts = [_node(op, av, C, flags) for op, av in items]
-    if not parts:
-        return z3.Re("")
-    return parts[0] if len(parts) == 1 else z3.Concat(*parts)
+    """right fold so that look-aheads constrain what FOLLOWS them: A (?=R) B == A . (R.Sigma* & B)"""
+    rest = None          # z3 Re for the remainder, None = epsilon
+    sigma_star = z3.Star(_any_char())
+    for op, av in reversed(list(items)):
+        name = str(op)
+        if name in ('ASSERT', 'ASSERT_NOT'):
+            direction, sub = av
+            if direction != 1:
+                raise Unsupported("look-behind")
+            r = z3.Concat(_seq(list(sub), C, flags), sigma_star)
+            if name == 'ASSERT_NOT':
+                r = z3.Complement(r)
+            rest = z3.Intersect(r, rest if rest is not None else z3.Re(""))
+            continue
+        node = _node(op, av, C, flags)
+        rest = node if rest is None else z3.Concat(node, rest)
+    return rest if rest is not None else z3.Re("")
 
 
 def _node(op, av, C, flags):
